@@ -124,6 +124,28 @@ where T: Ring + Bridge, for<'x> &'x T: RingOps<T> {
     if p.const_term().to_o() != c0 { return Some(format!("const_term = {:?}, the polynomial's constant term is {:?}", p.const_term().to_o(), c0)) }
     if p.is_const() != m.keys().all(|k| k == &zero_exps) { return Some(format!("is_const = {} for {}", p.is_const(), m_show(m))) }
     if &p.map_coeffs::<T, _>(|c| c.clone()) != p { return Some("map_coeffs(identity) is not the same polynomial".into()) }
+    // constructors / conversions: consuming iteration, From<Lc>, FromIterator over the own terms (in reverse order and
+    // with one term split in two), From<(X, R)> / From<X> / from_const on single terms
+    {
+        let terms: Model<T::O> = p.clone().into_iter().map(|(x, c)| (x.exps(), c.to_o())).collect();
+        if &terms != m { return Some("IntoIterator (by value) yields different terms".into()) }
+        if &PolyBase::<X, T>::from(p.inner().clone()) != p { return Some("From<Lc> of the inner linear combination is a different polynomial".into()) }
+        let mut ts: Vec<(X, T)> = p.iter().map(|(x, c)| (x.clone(), c.clone())).collect();
+        ts.reverse();
+        if let Some((x0, c0)) = ts.first().cloned() { ts[0] = (x0.clone(), &c0 - &T::one()); ts.push((x0, T::one())); }
+        if &ts.into_iter().collect::<PolyBase<X, T>>() != p { return Some("FromIterator over the own terms (reordered, one term split in two) is a different polynomial".into()) }
+        if let Some((k, c)) = m.iter().next() {
+            let x = X::from_exps(k);
+            if let Some(cl) = T::try_from_o(c) {
+                let single = PolyBase::<X, T>::from((x.clone(), cl.clone()));
+                if single.nterms() != 1 || &single.coeff(&x).to_o() != c { return Some("From<(X, R)> does not build the single term".into()) }
+                let mono1 = PolyBase::<X, T>::from(x.clone());
+                if !mono1.is_mono() || !mono1.coeff(&x).is_one() { return Some("From<X> does not build the monomial with coefficient one".into()) }
+                let cst = PolyBase::<X, T>::from_const(cl);
+                if !cst.is_const() || &cst.const_term().to_o() != c { return Some("from_const does not build the constant polynomial".into()) }
+            }
+        }
+    }
     let mono = m.len() == 1 && m.values().next().map(|c| c.is1()).unwrap_or(false);
     if p.is_mono() != mono { return Some(format!("is_mono = {} for {}", p.is_mono(), m_show(m))) }
     match (p.as_mono(), mono) {
